@@ -114,10 +114,44 @@ Proof.
     rewrite (digit_not_minus c Hc). rewrite Hall, Hval, Hin. reflexivity.
 Qed.
 
-Lemma drop_ws_digits : forall s, all_digits s = true -> drop_while is_ascii_ws s = s.
+Lemma digit_range : forall c, is_digit c = true -> (48 <= c <= 57)%N.
 Proof.
-  intros [|c r] H; [reflexivity|]. cbn in H. apply andb_true_iff in H. destruct H as [Hc _].
-  cbn. now rewrite (digit_not_ws c Hc).
+  intros c H. unfold is_digit in H. apply andb_true_iff in H. destruct H as [A B].
+  apply N.leb_le in A. apply N.leb_le in B. lia.
+Qed.
+
+Lemma digit_not_uws2 : forall a b, is_digit a = true \/ is_digit b = true -> is_uws2 a b = false.
+Proof.
+  intros a b H. unfold is_uws2.
+  destruct (a =? 194)%N eqn:A; [|reflexivity]. apply N.eqb_eq in A. cbn [andb].
+  destruct (b =? 133)%N eqn:B1; [apply N.eqb_eq in B1; destruct H as [H|H]; apply digit_range in H; lia|].
+  destruct (b =? 160)%N eqn:B2; [apply N.eqb_eq in B2; destruct H as [H|H]; apply digit_range in H; lia|].
+  reflexivity.
+Qed.
+
+Lemma digit_not_uws3 : forall a b c, is_digit a = true \/ is_digit c = true -> is_uws3 a b c = false.
+Proof.
+  intros a b c H. unfold is_uws3.
+  assert (Ha : is_digit a = true -> (a =? 225)%N = false /\ (a =? 226)%N = false /\ (a =? 227)%N = false).
+  { intro Hd. apply digit_range in Hd. repeat split; apply N.eqb_neq; lia. }
+  assert (Hc : is_digit c = true -> (c =? 128)%N = false /\ (128 <=? c)%N = false /\ (c =? 168)%N = false /\
+                                     (c =? 169)%N = false /\ (c =? 175)%N = false /\ (c =? 159)%N = false).
+  { intro Hd. apply digit_range in Hd. repeat split; try (apply N.eqb_neq; lia). apply N.leb_gt. lia. }
+  destruct H as [H|H].
+  - destruct (Ha H) as (A1 & A2 & A3). rewrite A1, A2, A3. reflexivity.
+  - destruct (Hc H) as (C1 & C2 & C3 & C4 & C5 & C6). rewrite C1, C2, C3, C4, C5, C6.
+    cbn [andb orb]. rewrite !andb_false_r. reflexivity.
+Qed.
+
+Lemma drop_ws_digits : forall fwd s, all_digits s = true -> trim_sp fwd s = s.
+Proof.
+  intros fwd [|c r] H; [reflexivity|]. cbn in H. apply andb_true_iff in H. destruct H as [Hc _].
+  cbn [trim_sp]. rewrite (digit_not_ws c Hc).
+  destruct r as [|d r2]; [reflexivity|].
+  assert (U2 : (if fwd then is_uws2 c d else is_uws2 d c) = false) by (destruct fwd; apply digit_not_uws2; auto).
+  rewrite U2. destruct r2 as [|e r3]; [reflexivity|].
+  assert (U3 : (if fwd then is_uws3 c d e else is_uws3 e d c) = false) by (destruct fwd; apply digit_not_uws3; auto).
+  rewrite U3. reflexivity.
 Qed.
 
 Lemma all_digits_rev : forall s, all_digits s = true -> all_digits (rev s) = true.
@@ -126,8 +160,8 @@ Proof. intros s H. apply all_digits_Forall. apply Forall_rev. apply all_digits_F
 Theorem parse_ts_render_nat : forall t, 0 <= t <= max_int64 -> parse_ts (render_nat t) = Ok (Some t).
 Proof.
   intros t [H0 H1]. destruct (render_nat_spec t H0) as [Hne [Hall Hval]].
-  unfold parse_ts, trim_ws. rewrite (drop_ws_digits _ Hall).
-  rewrite (drop_ws_digits _ (all_digits_rev _ Hall)). rewrite rev_involutive.
+  unfold parse_ts, trim_ws. rewrite (drop_ws_digits true _ Hall).
+  rewrite (drop_ws_digits false _ (all_digits_rev _ Hall)). rewrite rev_involutive.
   destruct (render_nat t) as [|c r] eqn:E; [congruence|].
   rewrite Hall, Hval. assert (Hle : (t <=? max_int64) = true) by (apply Z.leb_le; exact H1). rewrite Hle. reflexivity.
 Qed.
